@@ -10,6 +10,7 @@ import (
 	"encoding/json"
 	"fmt"
 	"os"
+	"runtime"
 	"time"
 )
 
@@ -114,8 +115,25 @@ func VerifYield() { time.Sleep(30 * time.Millisecond) }
 // VerifSymbolic reports whether the code runs inside the symbolic executor.
 func VerifSymbolic() bool { return false }
 
-func VerifAllocMax() int  { return 0 }
-func VerifAllocReset()    {}
+var verifAllocBase uint64
+
+// VerifAllocReset/VerifAllocMax: allocation monitor. Executor: largest single allocation in bytes
+// since the reset. Native replay: bytes allocated since the reset beyond 1 MiB of slack.
+func VerifAllocReset() {
+	var m runtime.MemStats
+	runtime.ReadMemStats(&m)
+	verifAllocBase = m.TotalAlloc
+}
+
+func VerifAllocMax() int {
+	var m runtime.MemStats
+	runtime.ReadMemStats(&m)
+	d := m.TotalAlloc - verifAllocBase
+	if d < 1<<20 {
+		return 0
+	}
+	return int(d - 1<<20)
+}
 func VerifStop()          {}
 func VerifFireTimers() int { return 0 }
 
